@@ -484,6 +484,8 @@ impl RocksDBStateMachine {
         *self.last_snapshot_metadata.write() = Some(metadata.clone());
         if let Some(last_included) = &metadata.last_included {
             self.update_last_applied(*last_included);
+            // keep the persisted index (read by scan_prefix from its snapshot) in step
+            self.persist_state_machine_metadata()?;
         }
 
         self.is_serving.store(true, Ordering::SeqCst);
@@ -662,6 +664,17 @@ impl RocksDBStateMachine {
         let cf = db
             .cf_handle(STATE_MACHINE_CF)
             .ok_or_else(|| StorageError::DbError("STATE_MACHINE_CF not found".into()))?;
+        // Entries and revision come from one snapshot: apply_chunk commits the data and the applied
+        // index in a single batch, so the snapshot holds exactly the state at the revision it
+        // records. (Reading the in-memory index after the iteration reported a revision newer than
+        // the entries when a chunk was applied in between; clients skipping events <= revision then
+        // lose that update.)
+        let snap = db.snapshot();
+        opts.set_snapshot(&snap);
+        let snapshot_revision = db
+            .cf_handle(STATE_MACHINE_META_CF)
+            .and_then(|meta_cf| snap.get_cf(&meta_cf, LAST_APPLIED_INDEX_KEY).ok().flatten())
+            .and_then(|b| b.as_slice().try_into().ok().map(u64::from_be_bytes));
         let iter = db.iterator_cf_opt(&cf, opts, IteratorMode::From(prefix, Direction::Forward));
 
         let mut entries = Vec::new();
@@ -675,7 +688,9 @@ impl RocksDBStateMachine {
         #[cfg(feature = "__verif")]
         d_engine_core::verif_hooks::yield_point("sm.scan.before_revision");
 
-        let revision = self.last_applied_index.load(Ordering::SeqCst);
+        // (a store that has never applied a chunk has no persisted index yet)
+        let revision =
+            snapshot_revision.unwrap_or_else(|| self.last_applied_index.load(Ordering::SeqCst));
         Ok(ScanResult { entries, revision })
     }
 
